@@ -112,3 +112,38 @@ package meta
 //@   assigns nothing
 //@   noalloc
 //@   ensures forall k int :: 0 <= k && k < len(result) ==> result[k] != nil
+
+// ---- C02 / C05: how a derived type combines with its base (typedef chain) ------------------------------------
+// restrictions accumulate: the derived type keeps its own ranges / lengths / bits and gains every one of the base,
+// in order (so every level of the chain stays enforced); patterns, enums, identities, the leafref path, the union
+// members and fraction-digits are inherited only when the derived type states none; the built-in format is the base's
+//@ func (base *Type) mixin(derived *Type)
+//@   mode int
+//@   property C02 C05
+//@   requires base != nil && derived != nil && base != derived
+//@   requires forall k int :: 0 <= k && k < len(base.unionTypes) ==> base.unionTypes[k] != nil
+//@   requires backing(derived.ranges) != 0 ==> backing(derived.ranges) != backing(derived.lengths) && backing(derived.ranges) != backing(base.lengths)
+//@   requires backing(derived.lengths) != 0 ==> backing(derived.lengths) != backing(base.ranges)
+//@   requires backing(derived.ranges) != 0 ==> backing(derived.ranges) != backing(base.ranges)
+//@   requires backing(derived.lengths) != 0 ==> backing(derived.lengths) != backing(base.lengths)
+//@   assigns *derived, elems(derived.ranges), elems(derived.lengths), elems(derived.bits)
+//@   loop 1 invariant -1 <= rangeindex && rangeindex < len(base.unionTypes) && len(derived.unionTypes) == len(base.unionTypes) && fresh(derived.unionTypes)
+//@   loop 1 invariant derived.ranges === before(1, derived.ranges) && derived.patterns === before(1, derived.patterns) && derived.path == before(1, derived.path) && derived.enums === before(1, derived.enums) && derived.base === before(1, derived.base)
+//@   loop 1 invariant base.unionTypes === before(1, base.unionTypes) && base.ranges === before(1, base.ranges) && base.lengths === before(1, base.lengths) && derived.lengths === before(1, derived.lengths)
+//@   loop 1 invariant forall k int :: 0 <= k && k < len(base.unionTypes) ==> base.unionTypes[k] != nil && base.unionTypes[k] == before(1, base.unionTypes[k])
+//@   loop 1 invariant forall k int :: 0 <= k && k < len(derived.ranges) ==> derived.ranges[k] == before(1, derived.ranges[k])
+//@   loop 1 invariant forall k int :: 0 <= k && k < len(derived.lengths) ==> derived.lengths[k] == before(1, derived.lengths[k])
+//@   loop 1 invariant forall k int :: 0 <= k && k < len(base.ranges) ==> base.ranges[k] == before(1, base.ranges[k])
+//@   loop 1 invariant forall k int :: 0 <= k && k < len(base.lengths) ==> base.lengths[k] == before(1, base.lengths[k])
+//@   loop 1 decreases len(base.unionTypes) - rangeindex
+//@   ensures [rangesKept] len(derived.ranges) == old(len(derived.ranges)) + len(base.ranges)
+//@   ensures [rangesOwn] forall k int :: 0 <= k && k < old(len(derived.ranges)) ==> derived.ranges[k] == old(derived.ranges)[k]
+//@   ensures [rangesBase] forall k int :: 0 <= k && k < len(base.ranges) ==> derived.ranges[old(len(derived.ranges)) + k] == base.ranges[k]
+//@   ensures [lengthsKept] len(derived.lengths) == old(len(derived.lengths)) + len(base.lengths)
+//@   ensures [lengthsBase] forall k int :: 0 <= k && k < len(base.lengths) ==> derived.lengths[old(len(derived.lengths)) + k] == base.lengths[k]
+//@   ensures [bitsKept] len(derived.bits) == old(len(derived.bits)) + len(base.bits)
+//@   ensures [format] derived.format == base.format
+//@   ensures [patterns] old(len(derived.patterns)) == 0 ? derived.patterns === base.patterns : derived.patterns === old(derived.patterns)
+//@   ensures [enums] old(derived.enums) == nil ? derived.enums === base.enums : derived.enums === old(derived.enums)
+//@   ensures [path] derived.path == ((base.path != "" && old(derived.path) == "") ? base.path : old(derived.path))
+//@   ensures [fraction] derived.fractionDigits == (old(derived.fractionDigits) == 0 ? base.fractionDigits : old(derived.fractionDigits))
